@@ -58,7 +58,12 @@ func (s *NCServer) TakeBounds() []int {
 }
 
 // Start implements Reactor.
-func (s *NCServer) Start() []byte { return []byte(s.Hello) }
+func (s *NCServer) Start() []byte {
+	// every connection starts a session of its own
+	s.Version, s.ClientHello, s.buf, s.dead = "", "", nil, false
+
+	return []byte(s.Hello)
+}
 
 // State implements Reactor.
 func (s *NCServer) State() string {
